@@ -32,10 +32,10 @@ ASSUMPTIONS = ['an Undefined entry is the unbound state: identity and round-trip
 PLAN = {
     'quick': [('core', 3, (('x', 'y'),), (('x',), ('x', 'y'))), ('jumps', 4, (('x',),), (('x',),)), ('try', 3, (('x',),), (('x',),)),
               ('clos', 3, (('x',),), (('x',),)), ('expr', 3, (('x',),), (('x',),)), ('state', 3, (('x', 'y'),), (('x', 'y'), ())),
-              ('callee', 2, (('x',),), (('x',),)), ('compidx', 4, ((),), ((),)), ('trybind', 3, ((),), ((),)), ('alias', 3, (('x',),), ((),)), ('targets', 3, (('x', 'y'),), ((),))],
+              ('callee', 2, (('x',),), (('x',),)), ('compidx', 4, ((),), ((),)), ('trybind', 3, ((),), ((),)), ('nameidx', 4, ((),), ((),)), ('alias', 3, (('x',),), ((),)), ('targets', 3, (('x', 'y'),), ((),))],
     'thorough': [('core', 4, (('x', 'y'),), (('x',), ('x', 'y'))), ('jumps', 5, (('x',),), (('x',),)), ('try', 4, (('x',),), (('x',),)),
                  ('clos', 4, (('x',),), (('x',),)), ('expr', 4, (('x',),), (('x',),)), ('state', 4, (('x', 'y'),), (('x', 'y'), ())),
-                 ('callee', 3, (('x',),), (('x',),)), ('compidx', 5, ((),), ((),)), ('trybind', 4, ((),), ((),)), ('alias', 4, (('x',),), ((),)),
+                 ('callee', 3, (('x',),), (('x',),)), ('compidx', 5, ((),), ((),)), ('trybind', 4, ((),), ((),)), ('nameidx', 5, ((),), ((),)), ('alias', 4, (('x',),), ((),)),
                  ('targets', 4, (('x', 'y'),), ((),))],
 }
 CAP = c01.CAP
@@ -176,18 +176,18 @@ def composite_base_maybe_unbound(body, seen_bind=False):
   set_state() of that value stores through the Undefined placeholder of p.  Recognised on the reduced witness: the
   statement using d[p.key] does not bind p itself and a statement before it does."""
   for st in body:
-    if st[0] in ('SUBPA', 'SUBPI'):
+    if st[0] in ('SUBPA', 'SUBPI', 'SUBJ'):
       continue
     blocks = [p for p in st[1:] if isinstance(p, tuple) and p and isinstance(p[0], tuple)]
-    if blocks and _contains(st, ('SUBPA', 'SUBPI')):
-      if not _contains(st, ('BINDP',)):
+    if blocks and _contains(st, ('SUBPA', 'SUBPI', 'SUBJ')):
+      if not _contains(st, ('BINDP', 'BINDJ')):
         if seen_bind:
           return True
       else:
         for b in blocks:
           if composite_base_maybe_unbound(b, seen_bind):
             return True
-    if _contains(st, ('BINDP',)):
+    if _contains(st, ('BINDP', 'BINDJ')):
       seen_bind = True
   return False
 
